@@ -162,7 +162,15 @@ def jcopy(v):
         return out
     if t in (list, tuple):
         return [jcopy(x) for x in v]
-    return v
+    if isinstance(v, dict):
+        return {_jkey(k): jcopy(x) for k, x in v.items()}
+    if isinstance(v, (list, tuple)):
+        return [jcopy(x) for x in v]
+    if v is None or isinstance(v, (str, int, float)) or getattr(t, '_is_sym', False) or (t.__module__ or '').startswith(('symx', 'harness')) \
+            and not getattr(t, '_not_json', False):
+        return v
+    # what json.dump does with anything else (a set, bytes, an arbitrary object)
+    raise TypeError('Object of type %s is not JSON serializable' % t.__name__)
 
 
 class _Stat:
